@@ -1,0 +1,23 @@
+//go:build !verif
+
+package app
+
+// No-op twins of the verification hooks in verif_on.go (build tag `verif`).
+
+import (
+	"time"
+
+	"github.com/f1bonacc1/process-compose/src/command"
+)
+
+func verifCommander(_ *Process) command.Commander { return nil }
+
+func verifInstance(_ *Process) {}
+
+func verifStateChange(_ *Process, _ string) {}
+
+func verifHealth(_ *Process) {}
+
+func verifBackoff(_ int) (time.Duration, bool) { return 0, false }
+
+func verifYield(_ string, _ string) {}
